@@ -87,6 +87,8 @@ def ranges_stream(ck):
         if lim is not None:
             want += " LIMIT %d" % lim
         if off:
+            if lim is None:
+                want += " LIMIT -1"        # SQLite has no OFFSET without LIMIT (repaired by fix f705aba)
             want += " OFFSET %d" % off
         got = None
         if "ok" in a:
